@@ -139,7 +139,8 @@ Arguments mkSend {St}. Arguments sr_state {St}. Arguments sr_failed {St}. Argume
 
 (* persistConn.writeRequest + transferWriter.writeBody (bufio layer elided except for the
    flush decision).  [flush_sees_bufio]: whether the type assertion of w to a bufio.Writer succeeds at the
-   "Flush and wait for 100-continue" point. Repaired code asserts on the raw writer: always. *)
+   "Flush and wait for 100-continue" point. Repaired code (fix bfce677) asserts on the raw
+   writer: always. *)
 Definition h1_send_gen {St} (flush_rule : list dumper -> bool) (ds : list dumper) (w : wfn St) (s : St)
                        (q : h1_request) : send_result St * log :=
   let hw := wrap_writer ds PReqH HReqHeader (lift w) in
@@ -234,30 +235,48 @@ Definition h1_recv_plain {St} (n : nat) (stream : bytes) (r : rfn St) (b0 : St) 
 (* ---------- HTTP/2 and HTTP/3 request side ----------
    [enc] (HPACK / QPACK + HEADERS framing) and [frame] (DATA framing) are arbitrary functions.
    h2: encodeHeaders dumps each field line, then the block is written; writeRequestBody dumps
-   each DATA payload BEFORE cc.fr.WriteData, "\r\n\r\n" via DumpDefault when the body was
-   written completely (hasBody).  h3 (repaired sendRequestBody): the stream is wrapped like the
+   each DATA payload BEFORE cc.fr.WriteData and "\r\n\r\n" via DumpDefault before the frame that
+   ends the stream (fix c886e79; the pinned code dumped it after writeRequestBody had returned,
+   when the response could already be dumped by the read loop).  h3 (repaired sendRequestBody, fix 9e30681): the stream is wrapped like the
    h1 body writer (dump what the stream accepted), separator when err == nil && written > 0. *)
 Record h23_request := mkH23Req {
   g_fields : list field;
-  g_body : option (list bytes) }.   (* Some chunks: body.Read results; None: no body *)
+  g_body : option (list bytes);     (* Some chunks: h2: the payloads of the writeData calls (DATA
+                                       frames); h3: the body.Read results; None: no body *)
+  g_fin_last : bool }.              (* h2: the last writeData call carried END_STREAM (the body
+                                       reader reported EOF together with the data) *)
 
 Definition h23_header_log (ds : list dumper) (fs : list field) : log :=
   run_hooks ds (field_hooks HReqHeader fs).
 
-Fixpoint h2_write_data {St} (ds : list dumper) (frame : bytes -> bytes) (w : wfn St)
-                       (st : St * log) (chunks : list bytes) : (St * log) * bool :=
+(* dumper-major emission:  for _, dump := range dumps { dump.A(..); dump.B(..) }  *)
+Definition run_hooks_each (ds : list dumper) (hs : list hook) : log :=
+  flat_map (fun d => flat_map (hook_emit d) hs) ds.
+
+Definition sep23 : bytes := crlf ++ crlf.
+Definition nonempty (p : bytes) : bool := negb (Nat.eqb (length p) 0).
+
+(* writeRequestBody's writeData wrapper (as of fix c886e79):
+     for _, dump := range dumps { dump.DumpRequestBody(data); if endStream { dump.DumpDefault(CRLF CRLF) } }
+     return cc.fr.WriteData(streamID, endStream, data)
+   i.e. everything is dumped BEFORE the frame is written, the separator before the frame that
+   carries END_STREAM.  Result: state, failed?, END_STREAM already sent? *)
+Fixpoint h2_write_data {St} (ds : list dumper) (frame frame_fin : bytes -> bytes) (fin_last : bool)
+                       (w : wfn St) (st : St * log) (chunks : list bytes) : (St * log) * bool * bool :=
   match chunks with
-  | [] => (st, false)
+  | [] => (st, false, false)
   | p :: r =>
-      let st1 := match p with [] => st | _ => add_hook ds (HReqBody p) st end in
-      match p with
-      | [] => h2_write_data ds frame w st1 r     (* the inner loop is skipped for n = 0 *)
-      | _ => let '(s', _, e) := w (fst st1) (frame p) in
-             if e then ((s', snd st1), true) else h2_write_data ds frame w (s', snd st1) r
-      end
+      let fin := fin_last && match r with [] => true | _ => false end in
+      let l1 := snd st ++ run_hooks_each ds (HReqBody p :: if fin then [HReqBodyEnd sep23] else []) in
+      let '(s', _, e) := w (fst st) ((if fin then frame_fin else frame) p) in
+      if e then ((s', l1), true, false) else
+      if fin then ((s', l1), false, true) else h2_write_data ds frame frame_fin fin_last w (s', l1) r
   end.
 
-Definition h2_send {St} (ds : list dumper) (enc : list field -> bytes) (frame : bytes -> bytes)
+(* [enc]: HPACK + HEADERS framing; [frame] / [frame_fin]: DATA framing without / with END_STREAM;
+   [endstream]: the empty DATA frame with END_STREAM sent when the last data frame did not carry
+   it - all arbitrary.  Reads of 0 bytes produce no frame. *)
+Definition h2_send {St} (ds : list dumper) (enc : list field -> bytes) (frame frame_fin : bytes -> bytes)
                    (endstream : bytes) (w : wfn St) (s : St) (q : h23_request) : send_result St * log :=
   let l0 := h23_header_log ds (g_fields q) in
   let '(s1, _, e1) := w s (enc (g_fields q)) in
@@ -265,22 +284,37 @@ Definition h2_send {St} (ds : list dumper) (enc : list field -> bytes) (frame : 
   match g_body q with
   | None => (mkSend s1 false false, l0)
   | Some chunks =>
-      let '(st2, e2) := h2_write_data ds frame w (s1, l0) chunks in
+      let '(st2, e2, ended) :=
+        h2_write_data ds frame frame_fin (g_fin_last q) w (s1, l0) (filter nonempty chunks) in
       if e2 then (mkSend (fst st2) true false, snd st2) else
+      if ended then (mkSend (fst st2) false false, snd st2) else
+      (* sentEnd = false: the separator for every body dumper, then the END_STREAM frame *)
+      let l3 := snd st2 ++ hook_emit_all ds (HReqBodyEnd sep23) in
       let '(s3, _, e3) := w (fst st2) endstream in
-      if e3 then (mkSend s3 true false, snd st2) else
-      (mkSend s3 false false, snd (add_hook ds (HReqBodyEnd (crlf ++ crlf)) (s3, snd st2)))
+      (mkSend s3 e3 false, l3)
   end.
 
-Definition h2_send_plain {St} (enc : list field -> bytes) (frame : bytes -> bytes) (endstream : bytes)
+Fixpoint h2_write_data_plain {St} (frame frame_fin : bytes -> bytes) (fin_last : bool)
+                             (w : wfn St) (s : St) (chunks : list bytes) : St * bool * bool :=
+  match chunks with
+  | [] => (s, false, false)
+  | p :: r =>
+      let fin := fin_last && match r with [] => true | _ => false end in
+      let '(s', _, e) := w s ((if fin then frame_fin else frame) p) in
+      if e then (s', true, false) else
+      if fin then (s', false, true) else h2_write_data_plain frame frame_fin fin_last w s' r
+  end.
+
+Definition h2_send_plain {St} (enc : list field -> bytes) (frame frame_fin : bytes -> bytes) (endstream : bytes)
                          (w : wfn St) (s : St) (q : h23_request) : send_result St :=
   let '(s1, _, e1) := w s (enc (g_fields q)) in
   if e1 then mkSend s1 true false else
   match g_body q with
   | None => mkSend s1 false false
   | Some chunks =>
-      let '(s2, e2) := write_all w s1 (map frame (filter (fun p => negb (Nat.eqb (length p) 0)) chunks)) in
+      let '(s2, e2, ended) := h2_write_data_plain frame frame_fin (g_fin_last q) w s1 (filter nonempty chunks) in
       if e2 then mkSend s2 true false else
+      if ended then mkSend s2 false false else
       let '(s3, _, e3) := w s2 endstream in
       mkSend s3 e3 false
   end.
@@ -299,7 +333,7 @@ Definition h3_send {St} (ds : list dumper) (enc : list field -> bytes)
       let '(st2, e2) := write_all bw (s1, l0) chunks in
       if e2 then (mkSend (fst st2) true false, snd st2) else
       if Nat.eqb (total_len chunks) 0 then (mkSend (fst st2) false false, snd st2) else
-      (mkSend (fst st2) false false, snd (add_hook ds (HReqBodyEnd (crlf ++ crlf)) st2))
+      (mkSend (fst st2) false false, snd (add_hook ds (HReqBodyEnd sep23) st2))
   end.
 
 Definition h3_send_plain {St} (enc : list field -> bytes) (w : wfn St) (s : St) (q : h23_request)
